@@ -4,6 +4,7 @@
 import os, sys
 sys.path.insert(0, os.path.dirname(os.path.abspath(__file__)))
 import dispatch_ext as _de
+from derived_common import newtype_items, INT_SHIMS
 
 F_EXT = "src/tls_extensions.rs"
 _types = [it for it in _de.UNIT["items"] if it["kind"] in ("struct", "enum", "newtype_enum")]
@@ -39,13 +40,6 @@ proof fn axiom_elem_is_fun<'a>()
     ensures is_fun(parse_protocol_name), is_fun(be_u16), is_fun(parse_tls_oid_filter), is_fun(parse_tls_extension_sni_hostname),
 {}
 
-// derive(NomBE) on a u8 newtype is be_u8 followed by the constructor (ASSUMED; Kani leaf_ext_sni asserts name type == byte)
-impl SNIType {
-    #[verifier::external_body]
-    pub fn parse<'a>(i: &'a [u8]) -> (r: IResult<&'a [u8], SNIType>)
-        ensures be_post(1, i@, r, |v: SNIType| v.0 as int),
-    { unimplemented!() }
-}
 
 // server name entry (RFC 6066 3): name_type u8, HostName<u16>
 pub open spec fn hostname_post(i: Seq<u8>, r: IResult<&[u8], (SNIType, &[u8])>) -> bool {
@@ -93,13 +87,15 @@ def list_fn(fn, elem, O, var, variant):
 
 UNIT = {
     "name": "ext_lists2",
+    "needs_expanded": True,
     "property": ["C05", "C06", "C01"],
     "prelude": ["shim_nom.rs"],
     "items": _types + [
         {"file": F_EXT, "kind": "fn", "name": "parse_protocol_name", "contract": "    ensures name_post(i@, r),",
          "subst": [(r"^fn parse_protocol_name", "pub fn parse_protocol_name")],   # R12: visibility widened in the extract only
          "splices": [{"at_start": True, "text": "    proof { reveal_with_fuel(be_val, 2); }"}]},
-        {"file": "-", "kind": "inline", "name": "list-contracts", "text": SPEC},
+        {"file": "-", "kind": "inline", "name": "list-contracts", "text": INT_SHIMS + SPEC},
+    ] + newtype_items("SNIType", 1) + [
         {"file": F_EXT, "kind": "fn", "name": "parse_tls_oid_filter", "contract": "    ensures oid_filter_post(i@, r),",
          "subst": [(r"^fn parse_tls_oid_filter", "pub fn parse_tls_oid_filter")],
          "splices": [{"at_start": True, "text": "    let ghost i0 = i@;\n    proof { reveal_with_fuel(be_val, 3); }"},
